@@ -28,7 +28,7 @@ else:
 INC += ["-I%s" % REPO, "-I%s/harness" % ROOT, "-I%s/models" % ROOT]
 DEFS = ["-DNDEBUG", "-DCPPCMS_BOOST_ALL_NO_LIB", "-Dcppcms_EXPORTS", "-DCPPCMS_VERIF"]
 CLANG_FLAGS = ["-std=c++11", "-O1", "-fno-vectorize", "-fno-slp-vectorize", "-fno-unroll-loops",
-               "-fno-strict-aliasing", "-fno-builtin", "-Wno-everything", "-S", "-emit-llvm"]
+               "-fno-strict-aliasing", "-fno-builtin", "-fno-access-control", "-Wno-everything", "-S", "-emit-llvm"]
 CBMC_BASE = ["--unwinding-assertions", "--no-malloc-may-fail", "--drop-unused-functions",
              "--object-bits", "12", "--slice-formula"]
 # exception-object construction is never the subject: backtrace capture is skipped (DESIGN 2.2)
@@ -106,7 +106,7 @@ def build_native(ctx, ob, tcfg):
         bdir = os.path.join(REPO, "_build")
         libs = ["-L" + bdir, "-L" + bdir + "/booster", "-lcppcms", "-lbooster",
                 "-Wl,-rpath," + bdir, "-Wl,-rpath," + bdir + "/booster"]
-    cmd = (["g++", "-std=c++11", "-O1", "-g", "-fsanitize=address", "-fno-omit-frame-pointer", "-w",
+    cmd = (["g++", "-std=c++11", "-O1", "-g", "-fsanitize=address", "-fno-omit-frame-pointer", "-fno-access-control", "-w",
             "-DVERIF_NATIVE", "-DVERIF_ENTRY=" + ob["entry"]] + DEFS + defs_args(defs) + INC +
            [src, os.path.join(ROOT, "harness", "verif_native.cpp"), "-o", exe] + libs + ["-lpthread", "-ldl", "-lz", "-lcrypto", "-lpcre"])
     rc, out, dt, to = run(cmd, timeout=900)
